@@ -8,6 +8,7 @@ use rten_base::num::{AsUsize, LeBytes};
 use rten_model_file::header::{Header, HeaderError};
 use rten_model_file::schema as sg;
 use rten_model_file::schema::root_as_model;
+use rten_tensor::errors::FromDataError;
 use rten_tensor::ArcTensor;
 
 use super::load_error::{LoadError, LoadErrorImpl, load_error};
@@ -363,17 +364,22 @@ fn add_graph_constant(
         Ok(graph_node)
     } else {
         // Constant data is stored inline in model
+        let invalid_shape = |err: FromDataError| load_error!(GraphError, name, err);
         let graph_node = if let Some(float_data) = constant.data_as_float_data() {
-            let const_data = constant_data_from_flatbuffers_vec(storage, float_data.data(), &shape);
+            let const_data = constant_data_from_flatbuffers_vec(storage, float_data.data(), &shape)
+                .map_err(invalid_shape)?;
             graph.add_constant(name, const_data)
         } else if let Some(int_data) = constant.data_as_int_32_data() {
-            let const_data = constant_data_from_flatbuffers_vec(storage, int_data.data(), &shape);
+            let const_data = constant_data_from_flatbuffers_vec(storage, int_data.data(), &shape)
+                .map_err(invalid_shape)?;
             graph.add_constant(name, const_data)
         } else if let Some(int8_data) = constant.data_as_int_8_data() {
-            let const_data = constant_data_from_flatbuffers_vec(storage, int8_data.data(), &shape);
+            let const_data = constant_data_from_flatbuffers_vec(storage, int8_data.data(), &shape)
+                .map_err(invalid_shape)?;
             graph.add_constant(name, const_data)
         } else if let Some(uint8_data) = constant.data_as_uint_8_data() {
-            let const_data = constant_data_from_flatbuffers_vec(storage, uint8_data.data(), &shape);
+            let const_data = constant_data_from_flatbuffers_vec(storage, uint8_data.data(), &shape)
+                .map_err(invalid_shape)?;
             graph.add_constant(name, const_data)
         } else {
             return Err(load_error!(
@@ -394,14 +400,14 @@ fn constant_data_from_flatbuffers_vec<'a, T: FromByteArray + flatbuffers::Follow
     storage: &Arc<ConstantStorage>,
     fb_vec: flatbuffers::Vector<'a, T>,
     shape: &[usize],
-) -> ConstantNodeData<T> {
+) -> Result<ConstantNodeData<T>, FromDataError> {
     if let Some(elements) = cast_le_bytes(fb_vec.bytes()) {
         let storage =
             ArcSlice::new(storage.clone(), elements).expect("storage does not contain data");
-        ArcTensorView::from_data(shape, storage).into()
+        Ok(ArcTensorView::try_from_data(shape, storage)?.into())
     } else {
         let data: Vec<T> = fb_vec.iter().collect();
-        ArcTensor::from_data(shape, Arc::new(data)).into()
+        Ok(ArcTensor::try_from_data(shape, Arc::new(data))?.into())
     }
 }
 
